@@ -526,9 +526,21 @@ def spec_form(eng, e, st, ctx):
     if name == 'slice_part':
         v = eng.coerce(ev1(a[0]), VAL).z
         return SV(VAL, z3.Select(st.hget(E.fkey(a[1].value, VAL)), Val.rval(v)))
+    if name == 'has_exit' and getattr(ctx, 'call_exit_cache', None) is not None:
+        return SV(BOOL, B(True))          # assumed postcondition of a callee that returned normally: its loops were left
     if name == 'has_exit':
         # has_exit(k): this path left loop k (normally or by break) -- decided per path, not a formula
         return SV(BOOL, B(('exit%d' % int(a[0].value)) in st.marks))
+    if name == 'at_exit' and getattr(ctx, 'call_exit_cache', None) is not None:
+        # in the ASSUMED postcondition of a call, the callee's loop-exit state is not visible: at_exit(k, e) is an unknown value of e's
+        # type, the same for every mention of the same expression within this call (a weaker, hence sound, reading)
+        key = (int(a[0].value), ast.unparse(a[1]))
+        if key not in ctx.call_exit_cache:
+            probe = eng.spec_eval(a[1], st.fork(), eng.spec_ctx(ctx, old_state=ctx.old_state, result=ctx.result, bound=ctx.bound))
+            if isinstance(probe.z, tuple):
+                raise Unsupported('at_exit of a Python-level value in an assumed postcondition')
+            ctx.call_exit_cache[key] = SV(probe.ty, fresh('atexit', probe.z.sort()))
+        return ctx.call_exit_cache[key]
     if name == 'at_exit':
         # at_exit(k, e): e evaluated in the state in which this path left loop k
         m = st.marks.get('exit%d' % int(a[0].value))
